@@ -94,7 +94,7 @@ impl Client {
     pub async fn call(&mut self, args: &[Vec<u8>]) -> Result<Option<BytesFrame>, String> {
         self.send(args).await.map_err(|e| format!("send failed: {e}"))?;
         loop {
-            match self.recv(Duration::from_secs(10)).await? {
+            match self.recv(Duration::from_secs(60)).await? {
                 Some(BytesFrame::Push { .. }) => continue,
                 other => return Ok(other),
             }
@@ -852,7 +852,7 @@ impl Check for C22 {
                         }
                         let mut got: Vec<u64> = Vec::new();
                         let mut sub_id: Option<String> = None;
-                        let deadline = tokio::time::Instant::now() + Duration::from_millis(if evs.is_empty() { 150 } else { 2500 });
+                        let deadline = tokio::time::Instant::now() + Duration::from_millis(if evs.is_empty() { 150 } else { 20_000 });
                         while got.len() < evs.len() || sub_id.is_none() {
                             let left = deadline.saturating_duration_since(tokio::time::Instant::now());
                             if left.is_zero() {
@@ -888,7 +888,7 @@ impl Check for C22 {
                             }
                         }
                         if got.len() < evs.len() {
-                            violation!("esub/missing-events", "ESUB {sname} FROM 0 delivered {} of the {} acknowledged events within 2.5 s", got.len(), evs.len());
+                            violation!("esub/missing-events", "ESUB {sname} FROM 0 delivered {} of the {} acknowledged events within 20 s", got.len(), evs.len());
                         }
                         if let Some(id) = &sub_id {
                             if let Some(last) = got.last() {
